@@ -49,6 +49,23 @@ def run(prog, E=None, prefix="mpq_", rule="R-OWN"):
         if b in OWNERS:
             res.sample({"function": f.name, "writes": w or ["p->basis"], "verdict": "owner: " + OWNERS[b]}, limit=6)
             continue
+        # a function that touches the basis only through public owners it calls with its own problem handle (a list variant built on
+        # QSnew_col, a named variant built on the index variant) inherits their contract
+        def _basis_fp(fp):
+            return bool(fp) and fp[0].endswith("qsdata::basis") and (len(fp) == 1 or (fp[1].split("::")[0].endswith("ILLlp_basis") and fp[1].split("::")[1] in FIELDS))
+        own_direct = [loc for (k, fp, loc, how, bid, idx) in E.direct_writes(f) if k == pidx and _basis_fp(fp)]
+        via = set()
+        foreign = []
+        for ci in E.callinfo[f.key]:
+            (g, name, loc, args, bid, idx, c) = ci
+            if any(k == pidx and _basis_fp(fp) for (k, fp) in E.call_writes(f, ci)):
+                if g is not None and base(g.name) in OWNERS and any(g.key == f2.key for f2, _ in api_functions(prog, prefix)):
+                    via.add(base(g.name))
+                else:
+                    foreign.append(name or "(*fp)")
+        if not own_direct and not foreign and via:
+            res.sample({"function": f.name, "writes": w or ["p->basis"], "verdict": "only through the owner(s) %s" % ", ".join(sorted(via))}, limit=6)
+            continue
         res.violations.append(Violation(rule, "%s|writes or releases p->basis" % b, f.name, short_loc(f.loc),
                                         "%s may write or release the problem's basis (%s) although replacing the basis is not its contract"
                                         % (f.name, ", ".join(w) if w else "the basis pointer")))
